@@ -420,6 +420,14 @@ std::vector<uint64_t> guardPcs() {
 namespace {
 void *freshMain(void *vp) {
     containInstall();
+    {
+        // the wall-clock watchdog of the single-threaded modes (SIGALRM, process-directed) must reach THIS thread:
+        // the creator keeps it blocked while it waits
+        sigset_t a;
+        sigemptyset(&a);
+        sigaddset(&a, SIGALRM);
+        pthread_sigmask(SIG_UNBLOCK, &a, nullptr);
+    }
     (*(std::function<void()> *)vp)();
     containThreadExit();
     return nullptr;
@@ -431,11 +439,17 @@ void schedRunOnFreshThread(const std::function<void()> &f) {
     pthread_attr_setstacksize(&attr, 8 << 20);
     pthread_t th;
     std::function<void()> copy = f;
+    sigset_t a, old;
+    sigemptyset(&a);
+    sigaddset(&a, SIGALRM);
+    pthread_sigmask(SIG_BLOCK, &a, &old);
     if (pthread_create(&th, &attr, freshMain, &copy) != 0) {
         pthread_attr_destroy(&attr);
+        pthread_sigmask(SIG_SETMASK, &old, nullptr);
         f();  // cannot create a thread: run in place
         return;
     }
     pthread_attr_destroy(&attr);
     pthread_join(th, nullptr);
+    pthread_sigmask(SIG_SETMASK, &old, nullptr);
 }
